@@ -135,6 +135,7 @@ func runAOFCrash(t *testing.T, prop string, seed uint64, tier string, replay *hc
 			type snap struct {
 				fs  *simfs.FS
 				ops int
+				log int
 			}
 			var snaps []snap
 			states := []string{e.m.DataString(p.Alphabet)}
@@ -148,7 +149,7 @@ func runAOFCrash(t *testing.T, prop string, seed uint64, tier string, replay *hc
 				marks = append(marks, mk)
 				states = append(states, e.m.DataString(p.Alphabet))
 				if prop == "C22" && (i%3 == 2 || i == len(p.Ops)-1) {
-					snaps = append(snaps, snap{fs: cloneWithSync(fs), ops: i + 1})
+					snaps = append(snaps, snap{fs: cloneWithSync(fs), ops: i + 1, log: len(fs.Log)})
 				}
 			}
 			log := append([]simfs.Op(nil), fs.Log...)
@@ -203,6 +204,20 @@ func runAOFCrash(t *testing.T, prop string, seed uint64, tier string, replay *hc
 				}
 			} else {
 				for _, sn := range snaps {
+					// lost writes: one unsynced write reads back as zeros while later ones survived
+					for wi, w := range simfs.UnsyncedWrites(log, sn.log) {
+						if len(w.Data) == 0 {
+							continue
+						}
+						simrt.Probe("lost-write-image")
+						check(sn.fs.ZeroRange(w.Path, int(w.Off), len(w.Data)), fmt.Sprintf("power loss after operation %d in which unsynced write #%d (%d bytes at offset %d of %s) was lost while later writes survived", sn.ops, wi, len(w.Data), w.Off, filepath.Base(w.Path)), 0, sn.ops, true)
+						if len(w.Data) > 1 {
+							check(sn.fs.ZeroRange(w.Path, int(w.Off)+len(w.Data)/2, len(w.Data)-len(w.Data)/2), fmt.Sprintf("power loss after operation %d in which the second half of unsynced write #%d was lost", sn.ops, wi), 0, sn.ops, true)
+						}
+						if len(res.Violations) > 0 {
+							return
+						}
+					}
 					for path, r := range sn.fs.Unsynced() {
 						step := 1
 						if r[1]-r[0] > 300 {
